@@ -77,6 +77,15 @@ class Trace:
         tick_now = 0
         auth_tick_pending = set()
         tickrecv = {}
+        emitted = {}           # seq -> dict(ty, mode, step, connected, ent)
+        stamps = {}            # (client, seq) -> stamp of the message sent to that client
+        delivered = {}         # (client session id, seq) -> count
+        cemitted = {}          # seq -> dict(ty, client, session, step, ent)
+        cdelivered = {}        # seq -> list of sender slots observed by server logic
+        sess_id = {}           # client -> running session number
+        sess_counter = [0]
+        last_got = {}          # (client, ty) -> last seq delivered (order check)
+        pending_cops = {}
         pending_sops = []
         spec_marked = {}       # entity -> bool (alive and carrying the marker)
         spec_vis = {}          # (client, entity) -> most recent setting since the entity last started replicating
@@ -96,6 +105,8 @@ class Trace:
                     self.add("C01", i, "undecodable or misaddressed message: %s" % l)
             if t[0] == "sop":
                 pending_sops.append(t[1:])
+            if t[0] == "cop" and t[2] == "ev":
+                pending_cops.setdefault(int(t[1]), []).append(t[3:])
             if t[0] == "cfg":
                 cfg = dict(kv.split("=") for kv in t[1:])
                 pending_sops, spec_marked, spec_vis = [], {}, {}
@@ -112,6 +123,8 @@ class Trace:
                         authorized.add(c)
                         auth_tick_pending.add(c)
                     session[c] = dict(ut=None, last={}, extras=None)
+                    sess_counter[0] += 1
+                    sess_id[c] = sess_counter[0]
             elif t[0] == "authorize":
                 c = int(t[1])
                 if c in connected and c not in authorized:
@@ -129,6 +142,13 @@ class Trace:
             elif t[0] == "sframe":
                 self.stats["frames"] += 1
                 for op in pending_sops:
+                    if op[0] == "ev":
+                        ty, mode, sq = op[1], op[2], int(op[3])
+                        ok_mode = mode in ("b", "ds") or int(mode[1:]) in connected
+                        if ok_mode:
+                            emitted[sq] = dict(ty=ty, mode=mode, step=i, connected={c: sess_id[c] for c in connected},
+                                               ent=op[4] if len(op) > 4 else None, running=True)
+                        continue
                     if op[0] == "spawn":
                         e = int(op[1])
                         if e not in spec_marked:
@@ -178,6 +198,39 @@ class Trace:
                                     self.add("C08", i, "entity %d should be visible to client %d (most recent setting) but is not replicated to it" % (e, c))
                                 if not want and e in v:
                                     self.add("C08", i, "entity %d is hidden from client %d (most recent setting) but the server treats it as visible" % (e, c))
+                for l in block:
+                    f = l.split()
+                    if f[0] == "evt":
+                        c, ty, sq = int(f[1]), f[2], int(f[4].split(":")[0])
+                        tk = f[3][2:]
+                        stamps[(c, sq)] = None if tk == "-" else int(tk)
+                        if c not in authorized and ty != "SEI":
+                            self.add("C07", i, "event that is not independent sent to a client that is not authorized: %s" % l)
+                        em = emitted.get(sq)
+                        if em is None:
+                            self.add("C05", i, "event message that no game logic emitted: %s" % l)
+                        else:
+                            if c not in em["connected"] or em["connected"][c] != sess_id.get(c):
+                                self.add("C05", i, "client %d is sent event %d which was emitted before it connected" % (c, sq))
+                            m = em["mode"]
+                            if (m == "ds") or (m[0] == "x" and int(m[1:]) == c) or (m[0] == "d" and m != "ds" and int(m[1:]) != c):
+                                self.add("C05", i, "client %d is not a recipient of event %d (mode %s)" % (c, sq, m))
+                    if f[0] == "from":
+                        for item in f[1].split(","):
+                            body, who = item.split("@")
+                            parts = body.split(":")
+                            sq = int(parts[1])
+                            cdelivered.setdefault(sq, []).append(who)
+                            ce = cemitted.get(sq)
+                            if ce is None:
+                                self.add("C05", i, "server logic observed a client event nobody emitted: %s" % item)
+                            else:
+                                if who != str(ce["client"]):
+                                    self.add("C05", i, "client event %d arrived with sender %s, emitted by client %d" % (sq, who, ce["client"]))
+                                if len(cdelivered[sq]) > 1:
+                                    self.add("C05", i, "client event %d reached server logic %d times" % (sq, len(cdelivered[sq])))
+                                if ce["ent"] is not None and (len(parts) < 3 or parts[2] != ce["ent"]):
+                                    self.add("C05", i, "client event %d carries entity %s, the client meant %s" % (sq, parts[2] if len(parts) > 2 else None, ce["ent"]))
                 for l in block:
                     f = l.split()
                     if f[0] in ("upd", "mut"):
@@ -233,6 +286,35 @@ class Trace:
             elif t[0] == "cframe":
                 self.stats["cframes"] += 1
                 c = int(t[1])
+                for op in pending_cops.pop(c, []):
+                    # cop ev <TY> <seq> [r<e>] : only events written while connected are for the remote server
+                    cemitted[int(op[1])] = dict(ty=op[0], client=c, session=sess_id.get(c) if c in connected else None, step=i,
+                                                ent=op[2] if len(op) > 2 else None)
+                got_line = [l for l in block if l.startswith("got %d " % c)]
+                cli_line = [l for l in block if l.startswith("cli %d " % c)]
+                if got_line and cli_line:
+                    ut_now = int(kv_field(cli_line[0], "ut"))
+                    for item in got_line[0].split()[2].split(","):
+                        parts = item.split(":")
+                        ty, sq = parts[0], int(parts[1])
+                        key = (sess_id.get(c), c, sq)
+                        delivered[key] = delivered.get(key, 0) + 1
+                        em = emitted.get(sq)
+                        if em is None:
+                            self.add("C05", i, "client %d logic observed an event nobody emitted: %s" % (c, item))
+                            continue
+                        if delivered[key] > 1:
+                            self.add("C05", i, "event %d delivered %d times to client %d" % (sq, delivered[key], c))
+                        st_ = stamps.get((c, sq))
+                        if ty != "SEI" and st_ is not None and ut_now < st_:
+                            self.add("C04", i, "event %d handed to client %d logic at update tick %d although it was sent with tick %d" % (sq, c, ut_now, st_))
+                        if em["ent"] is not None and (len(parts) < 3 or parts[2] != em["ent"]):
+                            self.add("C04", i, "event %d delivered to client %d with entity %s, the server meant %s" % (sq, c, parts[2] if len(parts) > 2 else None, em["ent"]))
+                        if ty in ("SE0", "SEI", "SEM", "ST"):
+                            prev = last_got.get((sess_id.get(c), c, ty))
+                            if prev is not None and sq < prev:
+                                self.add("C05", i, "events of type %s reached client %d out of sending order (%d after %d)" % (ty, c, sq, prev))
+                            last_got[(sess_id.get(c), c, ty)] = sq
                 for l in block:
                     if l.startswith("ack "):
                         self.stats["acks"] += 1
@@ -300,6 +382,29 @@ class Trace:
                         if e not in live:
                             del ses["last"][e]
                     ses["final"] = (ut, live)
+        if settle_from is not None:
+            last = len(steps) - 1
+            for sq, em in emitted.items():
+                for c, sid_ in em["connected"].items():
+                    if sess_id.get(c) != sid_ or c not in connected:
+                        continue          # that session ended
+                    m = em["mode"]
+                    intended = (m == "b") or (m[0] == "x" and int(m[1:]) != c) or (m[0] == "d" and m != "ds" and int(m[1:]) == c)
+                    n = delivered.get((sid_, c, sq), 0)
+                    reliable_plain = em["ty"] in ("SE0", "SEI") or (em["ty"] == "ST" and em["ent"] is None)
+                    if intended and reliable_plain and (c in authorized or em["ty"] == "SEI") and n != 1:
+                        # a client authorized only after the event was flushed legitimately misses it
+                        if (c, sq) in stamps or em["ty"] == "SEI":
+                            self.add("C05", last, "event %d (%s, mode %s) was delivered %d times to client %d, expected exactly once" % (sq, em["ty"], m, n, c))
+                    if not intended and n != 0:
+                        self.add("C05", last, "event %d (mode %s) reached client %d which is not a recipient" % (sq, m, c))
+            for sq, ce in cemitted.items():
+                n = len(cdelivered.get(sq, []))
+                c = ce["client"]
+                if ce["session"] is not None and sess_id.get(c) == ce["session"] and c in connected and ce["ty"] == "CE0" and n != 1:
+                    self.add("C05", last, "client event %d from client %d reached server logic %d times, expected exactly once" % (sq, c, n))
+                if ce["session"] is None and n != 0:
+                    self.add("C05", last, "client event %d written while disconnected was put on the network" % sq)
         # convergence at the end of the settle phase (C01)
         if settle_from is not None:
             for c in sorted(authorized):
